@@ -34,13 +34,14 @@ ExpandedHist(f, cur, x, newEnd) ==
                                 ELSE f.hist[i]]
   ELSE InsertAt(f.hist, [e |-> cur + 1, amt |-> AtEpoch(f, cur).amt ++ x, end |-> newEnd])
 
-\* One claim walking over one flow (the loop of claim.rs), epochs first .. cur.  W[e], G[e]: the claimer's weight and the
-\* global weight snapshot of epoch e (0 = none).  acc = [ok, why, em, claimed, pays]; the walk stops at the first refusal
-\* (the whole claim is then reverted by the caller).
-RECURSIVE ClaimWalk(_, _, _, _, _, _)
-ClaimWalk(f, e, cur, W, G, acc) ==
+\* One claim walking over one flow (the loop of claim.rs), epochs first .. cur.  Sh[e]: the claimer's share of epoch e in
+\* decimal atomics (its weight over the epoch's global weight snapshot; 0 = no weight or no snapshot: the epoch is walked
+\* over, and entered in the ledger, but pays nothing).  acc = [ok, why, em, claimed, pays]; the walk stops at the first
+\* refusal (the whole claim is then reverted by the caller).
+RECURSIVE ClaimWalk(_, _, _, _, _)
+ClaimWalk(f, e, cur, Sh, acc) ==
   IF e > cur \/ ~acc.ok \/ e >= FinalEnd(f) THEN acc
-  ELSE IF e < f.start THEN ClaimWalk(f, e + 1, cur, W, G, acc)
+  ELSE IF e < f.start THEN ClaimWalk(f, e + 1, cur, Sh, acc)
   ELSE
     LET fe == [f EXCEPT !.em = acc.em]
         h == AtEpoch(f, e)
@@ -49,11 +50,13 @@ ClaimWalk(f, e, cur, W, G, acc) ==
        ELSE
          LET emission == Monus(h.amt, before) // N(h.end - e)
              em1 == IF HasLedger(fe, e) THEN acc.em ELSE InsertAt(acc.em, [e |-> e, x |-> emission ++ before])
-         IN IF W[e] = Zero \/ G[e] = Zero THEN ClaimWalk(f, e + 1, cur, W, G, [acc EXCEPT !.em = em1])
-            ELSE LET reward == MulFloor(emission, FromRatio(W[e], G[e])) IN
+         IN IF Sh[e] = Zero THEN ClaimWalk(f, e + 1, cur, Sh, [acc EXCEPT !.em = em1])
+            ELSE LET reward == MulFloor(emission, Sh[e]) IN
                  IF emission \prec reward \/ FinalAmount(f) \prec (acc.claimed ++ reward)
                  THEN [acc EXCEPT !.ok = FALSE, !.why = "invalid-reward"]
-                 ELSE ClaimWalk(f, e + 1, cur, W, G,
+                 ELSE ClaimWalk(f, e + 1, cur, Sh,
                                 [acc EXCEPT !.em = em1, !.claimed = @ ++ reward,
                                             !.pays = IF reward = Zero THEN @ ELSE Append(@, [e |-> e, x |-> reward])])
+\* the share of a weight in a global weight, as claim.rs and the share query compute it
+ShareOf(w, g) == IF g = Zero THEN Zero ELSE FromRatio(w, g)
 =============================================================================
